@@ -1400,7 +1400,7 @@ def gen_violating(rng, h, maxlen=4, tower=False, env=None):
     if k == 'gen' and h['n'] == 'IntTable':
         choices += ['inttable_values', 'inttable_values', 'inttable_keys']
     if k == 'counter':
-        choices += ['all_keys']
+        choices += ['all_keys', 'all_values']
     if k == 'ann':
         choices += ['validator', 'inner']
     if k in ('union', 'pipe', 'opt'):
@@ -1515,7 +1515,17 @@ def _gen_violating_at(rng, h, where, maxlen, tower, env):
                 vv = gen_conforming(rng, vh, 2, env)
             else:
                 kk = gen_conforming(rng, h['a'][0], 2, env)
-                vv = gen_violating(rng, vh, 2, tower, env)[0]
+                vv = None
+                if k == 'counter' and rng.random() < 0.6:
+                    # a count that is no int but conforms to the *key* hint (explainer and checker must both use int)
+                    vv = gen_conforming(rng, h['a'][0], 2, env)
+                    try:
+                        if not must_reject(_INT, build_obj(vv, env), tower, env):
+                            vv = None
+                    except Exception:
+                        vv = None
+                if vv is None:
+                    vv = gen_violating(rng, vh, 2, tower, env)[0]
             items.append([kk, vv])
         items = _dedupe_items(items)
         if not items:
